@@ -32,6 +32,8 @@ mod store;
 mod sync;
 mod task;
 mod time;
+#[cfg(excsn_fibre_verif)]
+pub use time::verif_clock;
 
 #[cfg(feature = "serde")]
 pub mod snapshot;
